@@ -1028,6 +1028,15 @@ def worker_teardown():
         pr.close()
 
 
+def is_known(v, plan):
+    from . import known
+    return known.match("C20", v, plan, KNOWN_MATCHERS)
+
+
+def prepare_opts(opts):
+    return opts
+
+
 def plan_is_faulty(plan):
     """Fault-carrying = at least one injected collector pass; the rest are pure
     history / interleaving runs (tallied separately in the evidence)."""
